@@ -115,8 +115,17 @@ void h_fsr_pack(void) {
 #endif
     }
     VG_REACH(pack_returns);
+#if VG_CASE == 0 || VG_CASE == 2
     if (id > end0 + 2) { VG_REACH(pack_gap); }
-    if (id < end0 && end1 > end0 && VG_BITS < 8 && (((end0 - id) * VG_BITS) & 7)) { VG_REACH(pack_unaligned_overlap); }
+#endif
+#if VG_CASE == 0 || VG_CASE == 3
+#if VG_BITS < 8
+    if (id < end0 && end1 > end0 && (((end0 - id) * VG_BITS) & 7)) { VG_REACH(pack_unaligned_overlap); }
+#endif
     if (end1 <= end0) { VG_REACH(pack_total_overlap); }
+#endif
+#if VG_CASE == 0 || VG_CASE == 1
     if (fresh) { VG_REACH(pack_fresh); }
+    if (!fresh && e0 > 0 && end1 > t0 + VG_SPD) { VG_REACH(pack_contiguous_across_a_block); }
+#endif
 }
